@@ -7,6 +7,6 @@ CONSTANTS
   MODE = "frame"
   MaxTok = 3
   MaxPairTok = 1
-  Toks = {"x", "u", "LF", "CR", "CRLF", "SP", "COLON", "DATA", "EV", "ID", "RETRY", "BOM"}
+  Toks = {"x", "u", "n", "LF", "CR", "CRLF", "SP", "COLON", "DATA", "EV", "ID", "RETRY", "BOM"}
 INVARIANT Emit
 CHECK_DEADLOCK FALSE
